@@ -259,6 +259,9 @@ def rule_sf6(ctx: Ctx) -> List[Ob]:
                     if isinstance(c, ast.Call) and c.func is n:
                         role = "call"
                         a0 = c.args[0] if c.args else None
+                        if a0 is not None and owner is not None:
+                            from ..flow import Expander
+                            a0 = Expander(ctx, owner).expand_at(c, a0)
                         cp = isinstance(a0, ast.Call) and dotted(a0.func) == "np.copy"
                         ok = owner is not None and owner.name == home and cp
                         why = f"called in {owner.name if owner else '?'} with {short(a0)}"
